@@ -19,7 +19,7 @@ func init() {
 		ID:    "R-SMALL",
 		Doc:   "single-site obligations: thrift Reset recomputes protocol flags like the constructor; the seen-bit of a decoded field is set on every path that consumes it; keyset lookups are confirmed by a length comparison; HTML key fragments are always computed; slice growth is geometric; every callback parameter of the skippers is used; trailing-data tests dominate success returns; varint overflow constants; sort-before-delta; number-kind precedence; identities of base64/time/endianness callees",
 		Props: []string{"C01", "C02", "C03", "C04", "C07", "C08", "C12", "C13", "C14", "C16", "C19"},
-		Min:   map[string]int{"C01": 3, "C02": 3, "C03": 1, "C04": 4, "C07": 3, "C08": 4, "C12": 2, "C13": 3, "C14": 3, "C16": 1, "C19": 2},
+		Min:   map[string]int{"C01": 5, "C02": 3, "C03": 1, "C04": 4, "C07": 3, "C08": 4, "C12": 2, "C13": 3, "C14": 3, "C16": 1, "C19": 2},
 		Run:   runSmall,
 	})
 }
@@ -43,6 +43,7 @@ func runSmall(c *core.Ctx) []core.Obligation {
 	smallRawVarintByte(c, b)
 	smallSkipCoalescedBool(c, b)
 	smallStringOptionNull(c, b)
+	smallStringOptionMarshaler(c, b)
 	return b.out
 }
 
@@ -1034,4 +1035,61 @@ func callsIn2(blk *ssa.BasicBlock) []ssa.CallInstruction {
 		}
 	}
 	return out
+}
+
+// S18 — json ",string" option: the quoting wrapper is installed only where the field's encoder is
+// a built-in one, never around MarshalJSON / MarshalText output.
+func smallStringOptionMarshaler(c *core.Ctx, b *ob) {
+	props := []string{"C01"}
+	fn := c.Lookup("json.appendStructFields")
+	if fn == nil {
+		b.addP(props, core.Undecided, "string-option:marshalers", "-", "json.appendStructFields not found")
+		return
+	}
+	// does a function test Implements(jsonMarshalerType) and Implements(textMarshalerType)?
+	testsMarshalers := func(f *ssa.Function) bool {
+		if f == nil || f.Blocks == nil {
+			return false
+		}
+		seen := map[string]bool{}
+		for _, ci := range callsIn(f) {
+			cc := ci.Common()
+			if cc.IsInvoke() && cc.Method.Name() == "Implements" && len(cc.Args) == 1 {
+				if g := globalOfLoad(cc.Args[0]); g != nil {
+					seen[g.Name()] = true
+				}
+			}
+		}
+		return seen["jsonMarshalerType"] && seen["textMarshalerType"]
+	}
+	n := 0
+	for _, ci := range callsIn(fn) {
+		callee := staticCallee(ci.Common())
+		if callee == nil || callee.Name() != "constructStringEncodeFunc" {
+			continue
+		}
+		n++
+		key := "string-option:marshalers"
+		if n > 1 {
+			key = fmt.Sprintf("%s#%d", key, n)
+		}
+		guarded := false
+		for _, e := range dominatingEdges(ci.Block()) {
+			call, ok := e.ifi.Cond.(*ssa.Call)
+			if !ok || e.succ != 1 {
+				continue // need the false edge of "uses a marshaler"
+			}
+			if testsMarshalers(staticCallee(call.Common())) {
+				guarded = true
+			}
+		}
+		if guarded {
+			b.addP(props, core.Discharged, key, c.InstrPos(ci), "the string wrapper is installed only when the type is not encoded by a marshaler")
+		} else {
+			b.addP(props, core.Violation, key, c.InstrPos(ci), "the string option wraps the field's encoder without checking that it is not a MarshalJSON/MarshalText encoder: marshaler output is quoted a second time (\"7\" for 7, \"\\\"txt\\\"\" for \"txt\"), which encoding/json never does")
+		}
+	}
+	if n == 0 {
+		b.addP(props, core.Undecided, "string-option:marshalers", c.FuncPos(fn), "no installation of the string wrapper found in appendStructFields")
+	}
 }
